@@ -8,6 +8,13 @@ def is_builtin_class(cls: type) -> bool:
     return cls.__module__ == 'builtins'
 
 
+# Verification hook: when the environment variable DATACLASS_WIZARD_VERIF=1
+# is set, every generated function (name, source text, closure names, globals
+# names) is appended to this registry. It is `None` (no-op) otherwise.
+import os as _os
+_VERIF_REGISTRY = [] if _os.environ.get('DATACLASS_WIZARD_VERIF') == '1' else None
+
+
 class FunctionBuilder:
     __slots__ = (
         'current_function',
@@ -313,6 +320,12 @@ class FunctionBuilder:
         _globals = self.globals if _globals is None else _globals | self.globals
 
         LOG.debug("Globals before function compilation: %s", _globals)
+
+        if _VERIF_REGISTRY is not None:  # verification hook (off by default)
+            for _name, _locals, _code in fn_name_locals_and_code:
+                _VERIF_REGISTRY.append({'name': _name, 'source': _code,
+                                        'closure': list(_locals),
+                                        'globals': list(_globals)})
 
         exec(txt, _globals, ns)
 
